@@ -22,13 +22,14 @@ avars == <<W, q, J, smaller, greater, pc>>
 S == SumSeq(W)
 K == Len(W)
 
-Init ==
-    /\ W \in Vectors
-    /\ q = [l \in 1..Len(W) |-> Len(W) * W[l]]          \* scaled by S: q_l < 1  <=>  q[l] < S
-    /\ J = [l \in 1..Len(W) |-> 1]                       \* np.zeros: alias 0 (state 1 here)
-    /\ smaller = SelectSeq([l \in 1..Len(W) |-> l], LAMBDA l : Len(W) * W[l] < SumSeq(W))
-    /\ greater = SelectSeq([l \in 1..Len(W) |-> l], LAMBDA l : Len(W) * W[l] >= SumSeq(W))
+InitFor(w) ==
+    /\ W = w
+    /\ q = [l \in 1..Len(w) |-> Len(w) * w[l]]          \* scaled by S: q_l < 1  <=>  q[l] < S
+    /\ J = [l \in 1..Len(w) |-> 1]                       \* np.zeros: alias 0 (state 1 here)
+    /\ smaller = SelectSeq([l \in 1..Len(w) |-> l], LAMBDA l : Len(w) * w[l] < SumSeq(w))
+    /\ greater = SelectSeq([l \in 1..Len(w) |-> l], LAMBDA l : Len(w) * w[l] >= SumSeq(w))
     /\ pc = "pair"
+Init == \E w \in Vectors : InitFor(w)
 
 Last(s) == s[Len(s)]
 Front(s) == SubSeq(s, 1, Len(s) - 1)
